@@ -14,7 +14,7 @@ class FaultyFile:
     def __init__(self, data, fail_at=None):
         self._f = io.BytesIO(data)
         self.fail_at = fail_at
-        self.calls = {"read": 0, "seek": 0, "tell": 0}
+        self.calls = {"read": 0, "seek": 0, "tell": 0, "close": 0}
         self.close_calls = 0
 
     def _hit(self, name):
@@ -37,7 +37,8 @@ class FaultyFile:
 
     def close(self):
         self.close_calls += 1
-        self._f.close()
+        self._f.close()          # the descriptor is released even when the close call then reports an error
+        self._hit("close")
 
     @property
     def closed(self):
